@@ -786,7 +786,10 @@ func (w *WAL) truncateHeadLocked(newMin uint64) error {
 			toDelete[seg.ID] = seg.BaseIndex
 			toClose = append(toClose, seg.r)
 			newState.segments = newState.segments.Delete(seg.BaseIndex)
-			nTruncated += (maxIdx - seg.MinIndex + 1) // +1 because MaxIndex is inclusive
+			if maxIdx >= seg.MinIndex {
+				// An empty tail has no entries to count (its maxIdx is below MinIndex).
+				nTruncated += (maxIdx - seg.MinIndex + 1) // +1 because MaxIndex is inclusive
+			}
 		}
 
 		// There may not be any segments (left) but if there are, update the new
